@@ -829,6 +829,10 @@ func (ex *Exec) frameObligations(fr *frame, fc *FuncContract, entry, final *Stat
 		}
 		sort.Strings(names)
 	}
+	// components the body writes only at objects it allocated itself (allocation-freshness analysis of the
+	// modification scan, the same one that frames loops and uncontracted callees) cannot change an object that
+	// existed at entry: no SMT obligation is generated for them
+	fresh := ex.freshOnlyComps(fr, final)
 	for _, name := range names {
 		if name == "alive" || strings.HasPrefix(name, "IT.") {
 			continue
@@ -837,6 +841,10 @@ func (ex *Exec) frameObligations(fr *frame, fc *FuncContract, entry, final *Stat
 		cur := ex.comp(final, name, s)
 		old := ex.comp(entry, name, s)
 		if sameTerm(cur, old) {
+			continue
+		}
+		if fresh[name] && s.IsArray() && s.IndexSort() == SInt {
+			ex.vc.note("frame of components written only at objects allocated inside the function is established by the allocation-freshness analysis of the VC generator (no SMT obligation)")
 			continue
 		}
 		whole := false
@@ -1134,4 +1142,45 @@ func (eng *Engine) retLine(pos token.Pos) string {
 	}
 	p := eng.fset.Position(pos)
 	return strings.TrimSpace(eng.sourceLine(p.Filename, p.Line))
+}
+
+// freshOnlyComps: heap components that the body of fr.fn (including resolved callees) writes only at objects
+// allocated inside it, according to the static modification scan; empty when the scan cannot bound the effects.
+func (ex *Exec) freshOnlyComps(fr *frame, final *State) map[string]bool {
+	if ex.freshScan == nil {
+		ex.freshScan = map[*ssa.Function]map[string]bool{}
+	}
+	if r, ok := ex.freshScan[fr.fn]; ok {
+		return r
+	}
+	out := map[string]bool{}
+	ms := newModSet()
+	saved := ex.scanState
+	ex.scanState = final
+	func() {
+		defer func() {
+			if r := recover(); r != nil {
+				ms.all = true // the scan met something it cannot analyse: no component is skipped
+			}
+		}()
+		visiting := map[*ssa.Function]bool{fr.fn: true}
+		for _, b := range fr.fn.Blocks {
+			for _, in := range b.Instrs {
+				ex.scanInstr(fr, in, ms, 0, visiting)
+				if ms.all {
+					return
+				}
+			}
+		}
+	}()
+	ex.scanState = saved
+	if !ms.all {
+		for name := range ms.comps {
+			if !ms.nonfresh[name] {
+				out[name] = true
+			}
+		}
+	}
+	ex.freshScan[fr.fn] = out
+	return out
 }
